@@ -164,19 +164,27 @@ def pipeline_on_real_leveldb():
                     w.daemon.set_chain(sim.blocks)
                     w.flush_schedule = dict(fmap)
                     w.start_sync()
-                    w.run_until_caught_up()
-                    o1 = obsmod.observe(w, ref, what=('utxo', 'hist', 'headers'))
+                    try:
+                        w.run_until_caught_up()
+                        o1 = obsmod.observe(w, ref, what=('utxo', 'hist', 'headers'))
+                    except (world.SyncFailed, world.Stalled, world.ReaderBlocked,
+                            obsmod.ReadFailed) as e:
+                        results.append(('failed', type(e).__name__))
+                        continue
                     o2 = None
                     if y is not None:
                         w.daemon.add_known(sim.blocks)
                         w.daemon.set_chain(y.blocks)
-                        w.poll()
                         refy = obsmod.ref_at(y.blocks, len(y.blocks) - 1, indexrun.ACTIVATION)
-                        o2 = obsmod.observe(w, refy, what=('utxo', 'hist', 'headers'))
-                        if obsmod.compare(o2, refy, ('utxo', 'hist', 'headers')):
-                            raise Broken(f'{engine}: reorg result wrong')
-                    if obsmod.compare(o1, ref, ('utxo', 'hist', 'headers')):
-                        raise Broken(f'{engine}: sync result wrong')
+                        try:
+                            w.poll()
+                            o2 = obsmod.observe(w, refy, what=('utxo', 'hist', 'headers'))
+                        except (world.SyncFailed, world.Stalled, world.ReaderBlocked,
+                                obsmod.ReadFailed) as e:
+                            o2 = ('failed', type(e).__name__)
+                    # only agreement between the two engines is judged here: whether the
+                    # result is RIGHT is the checks' business (a defect in the tree under test
+                    # must surface as a violation there, not as a broken harness here)
                     results.append((o1, o2))
                 finally:
                     w.close()
